@@ -29,6 +29,9 @@ NShards == cfg.nshards
 Configs == {c \in [default_role : {"any", "primary", "replica"}, parser : BOOLEAN, rwsplit : BOOLEAN,
                     primary_reads : BOOLEAN, nshards : {3}] : c.rwsplit => c.parser}
 
+\* PluginsConfigured: whether the pool has a [plugins] section is deliberately NOT a field of Configs - no routing rule
+\* depends on it.  The harness replays a third of the parser-enabled sessions on pools with plugins configured
+\* (enabled or not) and the same expectations apply.
 RoleWords == {"primary", "replica", "any", "auto", "default"}
 PrWords == {"on", "off", "default"}
 
